@@ -111,6 +111,8 @@ Eqv(x, y, nanEq) ==
            [] x.t = "dict" -> /\ Cardinality(x.es) = Cardinality(y.es)
                               /\ \A p \in x.es : \E q \in y.es :
                                    Eqv(p[1], q[1], TRUE) /\ Eqv(p[2], q[2], nanEq)
+           \* functions, streams, struct instances: not keys, never equal here
+           [] OTHER -> FALSE
 KeyEq(x, y) == Eqv(x, y, TRUE)
 ValEq(x, y) == Eqv(x, y, FALSE)
 
@@ -184,7 +186,7 @@ OpAssignDflt(d, k, v0, f, v) ==
               [] OTHER -> Res(d, "unspec", VNull)
 
 \* remove d[k]: evaluates to the removed value; a missing key is an error even with a default
-Remove(d, k) == IF Has(d, k) THEN Res(Del(d, k), "ok", Entry(d, k)[2]) ELSE Res(d, "throw", VNull)
+RemoveKey(d, k) == IF Has(d, k) THEN Res(Del(d, k), "ok", Entry(d, k)[2]) ELSE Res(d, "throw", VNull)
 
 \* d |. k (add key with value null - an existing value is replaced by null), d -. k / discard
 AddKey(d, k) == Put(d, k, VNull)
